@@ -234,7 +234,17 @@ func runC12(w *fw.Worker) {
 			}
 			v := lf.Gen(r, c.Next())
 			texts, acc := splitForRepeats(r, lf, v)
-			if pk.name == "pflag" && lf.Name == "[]string" {
+			if k := lf.Type.Kind(); (k == reflect.Slice || k == reflect.Map) && lf.Caps&gen.CapTextU == 0 && r.Chance(10) {
+				// the flag is given with an empty value: the leaf becomes an empty (non-nil) collection, whatever the template holds
+				if k == reflect.Slice {
+					v = reflect.MakeSlice(lf.Type, 0, 0)
+				} else {
+					v = reflect.MakeMap(lf.Type)
+				}
+				texts, acc = []string{""}, v
+				w.Count("flags_given_with_an_empty_value", 1)
+			}
+			if pk.name == "pflag" && lf.Name == "[]string" && v.Len() > 0 {
 				// pflag's own StringSlice flag reads CSV, not Go-quoted lists
 				texts = nil
 				items := v.Interface().([]string)
